@@ -287,6 +287,11 @@ func runC03(c *Ctx) {
 	}
 	c.Note("set_history_depth", fmt.Sprint(depth))
 	for _, alpha := range c03SetAlphabets() {
+		if !c.Thorough && strings.Contains(alpha.name, "delimiters") {
+			// quick tier: these alphabets go through the permutation clause and one shallower search
+			exploreE2(c, &setSys{elems: alpha.elems, name: alpha.name}, depth-1, "set["+alpha.name+"].")
+			continue
+		}
 		exploreE2(c, &setSys{elems: alpha.elems, name: alpha.name}, depth, "set["+alpha.name+"].")
 		// the same search from non-initial states: three members (a bucket of length 3 has spare
 		// capacity when the members collide), four, and a populated second set
@@ -406,6 +411,23 @@ func c03SetAlphabets() []setAlpha {
 			cty.CapsuleVal(capsTypes[0], capsPtrs[3]), cty.CapsuleVal(capsTypes[0], capsPtrs[4]), cty.CapsuleVal(capsTypes[0], capsPtrs[0]),
 		}},
 		{"numbers-hash-colliding", hashCollidingInts()},
+		// compound members whose strings hold the characters a rendering of the member uses as
+		// quotes, separators and brackets: distinct members that any unescaped rendering confuses
+		{"lists-of-strings-with-delimiters", []cty.Value{
+			cty.ListVal([]cty.Value{cty.StringVal("a"), cty.StringVal("b")}), cty.ListVal([]cty.Value{cty.StringVal(`a";"b`)}),
+			cty.ListVal([]cty.Value{cty.StringVal(`a","b`)}), cty.ListVal([]cty.Value{cty.StringVal("a;b")}),
+			cty.ListVal([]cty.Value{cty.StringVal(`a"`), cty.StringVal(`"b`)}), cty.ListVal([]cty.Value{cty.StringVal(`a\";\"b`)}),
+		}},
+		{"objects-of-strings-with-delimiters", []cty.Value{
+			cty.ObjectVal(map[string]cty.Value{"k": cty.StringVal("x"), "l": cty.StringVal("y")}), cty.ObjectVal(map[string]cty.Value{"k": cty.StringVal(`x";"l":"y`), "l": cty.StringVal("")}),
+			cty.ObjectVal(map[string]cty.Value{"k": cty.StringVal(`x"`), "l": cty.StringVal(`;y`)}), cty.ObjectVal(map[string]cty.Value{"k": cty.StringVal(`x";`), "l": cty.StringVal(`y`)}),
+			cty.ObjectVal(map[string]cty.Value{"k": cty.StringVal("x:y"), "l": cty.StringVal("")}), cty.ObjectVal(map[string]cty.Value{"k": cty.StringVal(""), "l": cty.StringVal("x:y")}),
+		}},
+		{"tuples-of-strings-with-delimiters", []cty.Value{
+			cty.TupleVal([]cty.Value{cty.StringVal("a"), cty.StringVal("b")}), cty.TupleVal([]cty.Value{cty.StringVal(`a";"b`), cty.StringVal("")}),
+			cty.TupleVal([]cty.Value{cty.StringVal(""), cty.StringVal(`a";"b`)}), cty.TupleVal([]cty.Value{cty.StringVal(`a"`), cty.StringVal(`;"b`)}),
+			cty.TupleVal([]cty.Value{cty.StringVal(`a";`), cty.StringVal(`"b`)}), cty.TupleVal([]cty.Value{cty.StringVal("a;"), cty.StringVal("b")}),
+		}},
 	}
 }
 
